@@ -666,13 +666,14 @@ def r10(db, rep):
             tr = ieval.trace(f, body, {"__termfn__": tf})
             kinds = [k for k, n in tr]
             skips = [n for k, n in tr if k == "call" and "skip" in facts.expr_str(n)]
+            ends = kinds[-1:] in (["break"], ["return"])       # leaving the loop: break, or return from the walker
             if v == 0:
-                want, got = "end", ("end" if kinds[-1:] == ["break"] and not skips else "other")
+                want, got = "end", ("end" if ends and not skips else "other")
             elif (v & 0xc0) == 0xc0:
-                ok = kinds[-1:] == ["break"] and len(skips) == 1 and facts.cval(skips[0]["c"][1]) == 1
+                ok = ends and len(skips) == 1 and facts.cval(skips[0]["c"][1]) == 1
                 want, got = "pointer", ("pointer" if ok else "other")
             elif (v & 0xc0) == 0:
-                ok = "break" not in kinds and "throw" not in kinds and len(skips) == 1 and facts.cval(skips[0]["c"][1]) is None
+                ok = "break" not in kinds and "return" not in kinds and "throw" not in kinds and len(skips) == 1 and facts.cval(skips[0]["c"][1]) is None
                 want, got = "label", ("label" if ok else "other")
             else:
                 want, got = "malformed", ("malformed" if kinds[-1:] == ["throw"] else "other")
